@@ -441,8 +441,9 @@ impl Prop for C10 {
       }
     }
     // ---- finder (d): a single term query scores every hit with BM25 of the statement:
-    // idf(N_live, df) * tf*(k1+1) / (tf + k1*(1-b+b*len/avgdl)) * boost, per segment
-    if case["kind"] == json!("single_term") && plan.iter().any(|(f, _)| f == "_score") {
+    // idf(N_live, df) * tf*(k1+1) / (tf + k1*(1-b+b*len/avgdl)) * boost, per segment — under
+    // every sort plan (hits carry their score also under a field sort since /repo 8218789)
+    if case["kind"] == json!("single_term") {
       let q = &case["query"];
       let w = q["value"].as_str().unwrap_or("");
       let boost = q["boost"].as_f64().unwrap_or(1.0);
